@@ -18,20 +18,29 @@ from harness.proto import Atom
 PROP = 'C04'
 TRUSTED = [
     'modelled, not verified: genshi/template/directives.py (all directive classes but py:match), base.py Context / '
-    '_apply_directives / _eval_expr / Template._prepare / _flatten (EXPR, SUB, START branches), markup.py '
-    '_extract_directives, text.py SUB construction (hand-written Lean model tied by differential correspondence)',
+    '_apply_directives / _eval_expr / Template._prepare / _flatten (EXPR, SUB and plain START branches), markup.py '
+    '_extract_directives (the flat depth/dirmap pass), text.py token loop of NewTextTemplate/OldTextTemplate._parse '
+    '(hand-written Lean models tied by differential correspondence: rendered events one by one incl. error class, '
+    'and the prepared stream Template.stream)',
     'not modelled, only exercised: expat and MarkupTemplate._parse / interpolate (template source -> parsed stream), the '
-    'regular-expression scanners of NewTextTemplate/OldTextTemplate._parse, genshi.template.eval (expressions are '
+    'regular-expression scanners of the text templates (source -> tokens), genshi.template.eval (expressions are '
     're-implemented for a mini language: names, None/bool/int/str/list/dict literals, ==, not, len, indexing), '
-    'the serializer',
-    'py:match, <?python?>, xi:include, i18n directives, py:def defaults/*args/**kwargs, tuple unpacking in py:for / py:with',
+    'Attrs.__or__ (C18 model), the serializer',
+    'outside the model: py:match, <?python?>, xi:include, i18n directives, py:def defaults/*args/**kwargs, tuple '
+    'unpacking in py:for / py:with, interpolated attribute values, py: attributes on directive elements (known finding)',
+    'the documentation semantics `doc` is a formalisation of doc/xml-templates.rst / text-templates.rst by hand; where '
+    'the documents are silent (macro bodies see the caller\'s variables; py:when refers to the innermost choose being '
+    'rendered) it follows the engine',
 ]
 ASSUMPTIONS = [
-    'templates come from the directive grammar of harness/gen_templates.py, rendered with lookup="lenient"',
+    'templates come from the directive grammar of harness/gen_templates.py (every case is checked for grammar '
+    'membership before it is judged), rendered with lookup="lenient"',
     'expressions stay in the mini language; `not` is never an operand of == or the base of an index (genshi drops those '
-    'parentheses: C03/C13 defect, outside this property)',
+    'parentheses: C03/C13 defect, outside this property); names avoid Python builtins',
     'directive elements (<py:for> ...) carry no further py: attributes (known finding C04-direlem-attrs)',
     'each macro name is defined at most once per template and called only after its definition (no recursion)',
+    'two Undefined values are never compared with == (object identity of Undefined is not in the value universe: '
+    'the model answers unmodelled and the case is counted)',
 ]
 
 LANGS = ['markup', 'markup', 'markup', 'newtext', 'oldtext']
